@@ -2124,10 +2124,19 @@ def _build_fn(sf: SourceFile, item: Item, impl, ex: Extract, props, rep, unit, a
         if len(h1) != 1:
             raise AnchorLost(f"{qual}: fold from {ffrom!r}: {len(h1)} matches")
         fs_ = _stmt_start_before(body_toks, h1[0][0], 1)
-        h2 = [h for h in _find_seq_any(body_toks, pat_tokens(fto)) if h[0] >= fs_]
-        if not h2:
+        # TO may list alternatives `A ||| until:B`: the first one found after the start is taken; `until:` = the fold ends
+        # BEFORE the statement holding the anchor (so the text of the folded block's own last statement may change)
+        fe_ = None
+        for alt in [x.strip() for x in fto.split("|||")]:
+            until = alt.startswith("until:")
+            at = alt[6:].strip() if until else alt
+            h2 = [h for h in _find_seq_any(body_toks, pat_tokens(at)) if (h[0] > h1[0][1] if until else h[0] >= fs_)]
+            if h2:
+                st_ = _stmt_start_before(body_toks, h2[0][0], 1)
+                fe_ = st_ if until else _stmt_end_from_start(body_toks, st_)
+                break
+        if fe_ is None:
             raise AnchorLost(f"{qual}: fold to {fto!r}: no match after the start")
-        fe_ = _stmt_end_from_start(body_toks, _stmt_start_before(body_toks, h2[0][0], 1))
         body_toks[fs_:fe_] = lex(ftext) + [T(WS, "\n")]
         rep.append(("R0", f"fold: statements {ffrom[:40]!r} .. {fto[:40]!r} (under contract as a block of their own) replaced by `{ftext[:60]}`"))
     sig_toks = rw_strip_comments(sig_toks, rep)
